@@ -192,6 +192,9 @@ func (engC11) Gen(r *Rng, s *Script, idx int, tier string) {
 	renW := r.Range(0, 3)
 	if r.Chance(1, 50) {
 		s.Steps = append(s.Steps, Step{Op: "errBurst", A: r.Intn(2), C: []int{11, 33, 65, 130, 1100}[r.Intn(5)]})
+		if r.Chance(1, 2) {
+			s.Steps = append(s.Steps, Step{Op: "dump"}) // printing a table that holds many errors
+		}
 	}
 	for i := 0; i < n; i++ {
 		switch r.Pick([]int{8, errW, regW, renW}) {
@@ -388,7 +391,8 @@ func (engC12) Gen(r *Rng, s *Script, idx int, tier string) {
 			case 2:
 				s.Steps = append(s.Steps, Step{Op: "nestCell", A: r.Intn(4), B: r.Intn(3)})
 			case 3:
-				s.Steps = append(s.Steps, Step{Op: "updateCell", A: r.Intn(4)})
+				// (B=1: the item's text changed since the cell last read it)
+				s.Steps = append(s.Steps, Step{Op: "updateCell", A: r.Intn(4), B: r.Intn(2)})
 			default:
 				s.Steps = append(s.Steps, Step{Op: "copyCell", A: r.Intn(6), B: r.Intn(3)})
 			}
@@ -396,6 +400,18 @@ func (engC12) Gen(r *Rng, s *Script, idx int, tier string) {
 			s.Steps = append(s.Steps, Step{Op: "takeHandle", A: r.Intn(6)})
 		default:
 			s.Steps = append(s.Steps, genRenderStep(r, 0))
+		}
+	}
+	if r.Chance(1, 4) {
+		// items whose text can change after they were stored (Stringers): an
+		// Update() after such a change re-reads the text and nothing else
+		s.Config["mutable_items"] = 1
+		for i := range s.Steps {
+			for j := range s.Steps[i].Items {
+				if it := &s.Steps[i].Items[j]; it.K == "s" && it.S != "" {
+					it.K = "S"
+				}
+			}
 		}
 	}
 }
@@ -569,6 +585,7 @@ func (engC13) Gen(r *Rng, s *Script, idx int, tier string) {
 		}
 		s.Steps = append(s.Steps, Step{Op: "invokeRC"})
 	}
+	updates := r.Chance(1, 4)
 	byValue := r.Chance(1, 4) // cell-owned callbacks travelling with by-value copies of a cell
 	kept := -1                // render passes through one wrapper the caller keeps
 	if r.Chance(1, 3) {
@@ -619,6 +636,15 @@ func (engC13) Gen(r *Rng, s *Script, idx int, tier string) {
 				}
 				s.Steps = append(s.Steps, st)
 			}
+			continue
+		}
+		if byValue && r.Chance(1, 6) {
+			s.Steps = append(s.Steps, Step{Op: "foreignCopy", A: r.Intn(3)})
+			continue
+		}
+		if updates && r.Chance(1, 5) {
+			// the caller re-reads a cell's item: the cell stays where it is and what it is
+			s.Steps = append(s.Steps, Step{Op: "updateCell", A: r.Intn(4)})
 			continue
 		}
 		s.Steps = append(s.Steps, genBuildStep(r, m, 0, &ctr))
